@@ -276,6 +276,7 @@ func scenarios(tier string) []sched.Scenario {
 			}
 		}
 	}
+	out = append(out, sched.Scenario{Name: "telnet-negotiation-loss", Run: telnetNegotiationLoss})
 	return out
 }
 
@@ -283,7 +284,7 @@ func TestCheck(t *testing.T) {
 	sched.Main(t, sched.Check{
 		ID:    "C06",
 		Level: "fault_enumeration",
-		Rule: "operation (every blocking CLI, login and NETCONF operation) x loss kind {end-of-stream, persistent EIO, one EIO then end-of-stream, write error} x read preset x EVERY loss point (after byte k of the operation's own device stream, k=0..L incl. idle-after-exchange; for write errors every write index) on the real drivers under the virtual clock, then two later calls; " +
+		Rule: "the real telnet transport losing its connection (end of stream, reset) after every prefix of 5 openings, i.e. inside the option negotiation of Open; operation (every blocking CLI, login and NETCONF operation) x loss kind {end-of-stream, persistent EIO, one EIO then end-of-stream, write error} x read preset x EVERY loss point (after byte k of the operation's own device stream, k=0..L incl. idle-after-exchange; for write errors every write index) on the real drivers under the virtual clock, then two later calls; " +
 			"plus every execution within 1 (2 thorough) preemption/deviation of the error hand-off around each loss point; oracle: error returned within 3 read delays (+poll granularity) of the fault although the timeout is 100 units, success only when the exchange was complete and equal to the model, later calls fail promptly, no panic (worker exit status); distinct = distinct (operation, kind, preset, point, observation)",
 		Assumptions: []string{
 			"writes after a read-side loss succeed silently (the harder case: the kernel buffers them), so later calls must learn of the loss from the read path",
